@@ -1564,3 +1564,61 @@ Qed.
 Theorem cr_local_version_never_lowered p sid pre post k :
   vle (version_of (local (cr_run p sid pre)) k) (version_of (local (cr_run p sid (pre ++ post))) k).
 Proof. unfold cr_run. rewrite fold_left_app. apply cr_from_local_mono. Qed.
+
+(* ------------------------------------------------------------------ *)
+(** * record lists that repeat a key *)
+(** in an accepted batch an entry at the version its key had before carries the content it had *)
+Lemma batch_go_entry_same l : forall (s s' : store) k n x0 x,
+  batch_go s l = Some s' -> In (k, (n, x)) l -> lookup k s = Some (n, x0) -> x = x0.
+Proof.
+  induction l as [|[k0 [ver val]] r IH]; intros s s' k n x0 x; cbn [batch_go In]; [tauto|].
+  destruct (judge (lookup k0 s) ver val) eqn:J; try discriminate; intros G [E|E] L.
+  - inversion E; subst. apply judge_write in J. rewrite L in J. lia.
+  - destruct (kcmp k k0) eqn:C.
+    + apply kcmp_eq_iff in C. subst k0. apply judge_write in J. rewrite L in J.
+      assert (version_of (upsert k (ver, val) s) k = Some ver) as V
+        by (unfold version_of; rewrite lookup_upsert_same; reflexivity).
+      pose proof (batch_go_entry_ge r _ _ k n x ver G E V). lia.
+    + eapply IH; eauto. rewrite lookup_upsert_other; auto. intros ->. rewrite kcmp_refl in C. discriminate.
+    + eapply IH; eauto. rewrite lookup_upsert_other; auto. intros ->. rewrite kcmp_refl in C. discriminate.
+  - inversion E; subst. apply judge_same in J. rewrite L in J. inversion J. reflexivity.
+  - eapply IH; eauto.
+Qed.
+
+(** a list in which a key comes back at a lower version, or at the same version with other
+    content, after an earlier entry of the same list is refused whole: nothing of it is stored *)
+Lemma batch_go_repeat_refused (s : store) l1 k n x1 l2 v x l3 :
+  v < n \/ (v = n /\ x <> x1) ->
+  batch_go s (l1 ++ (k, (n, x1)) :: l2 ++ (k, (v, x)) :: l3) = None.
+Proof.
+  intros H. destruct (batch_go s (l1 ++ (k, (n, x1)) :: l2 ++ (k, (v, x)) :: l3)) as [s'|] eqn:G; auto.
+  exfalso. change ((k, (n, x1)) :: l2 ++ (k, (v, x)) :: l3) with ([(k, (n, x1))] ++ (l2 ++ (k, (v, x)) :: l3)) in G.
+  rewrite app_assoc, batch_go_app in G.
+  destruct (batch_go s (l1 ++ [(k, (n, x1))])) as [s1|] eqn:G1; [|discriminate].
+  pose proof (batch_go_spec (l1 ++ [(k, (n, x1))]) s s1 k G1) as K.
+  assert (last_entry k (l1 ++ [(k, (n, x1))]) = Some (n, x1)) as LE.
+  { clear. induction l1 as [|[k' e] r IH]; cbn [app last_entry].
+    - rewrite kcmp_refl. reflexivity.
+    - rewrite IH. reflexivity. }
+  rewrite LE in K.
+  assert (In (k, (v, x)) (l2 ++ (k, (v, x)) :: l3)) as I2 by (apply in_or_app; right; left; reflexivity).
+  destruct H as [H|[-> H]].
+  - assert (version_of s1 k = Some n) as V by (unfold version_of; rewrite K; reflexivity).
+    pose proof (batch_go_entry_ge _ _ _ k v x n G I2 V). lia.
+  - apply H. eapply batch_go_entry_same; eauto.
+Qed.
+
+Theorem c_restore_repeated_key_refused c l1 k n x1 l2 v x l3 :
+  v < n \/ (v = n /\ x <> x1) ->
+  let l := l1 ++ (k, (n, x1)) :: l2 ++ (k, (v, x)) :: l3 in
+  snd (c_unlogged c l) <> ROk /\ local (fst (c_unlogged c l)) = local c.
+Proof.
+  intros H l. unfold c_unlogged. destruct (cpoison c); [split; [discriminate|reflexivity]|].
+  destruct (clog c); [split; [discriminate|reflexivity]|].
+  unfold m_batch, l. rewrite (batch_go_repeat_refused (local c) l1 k n x1 l2 v x l3 H).
+  cbn. split; [discriminate|reflexivity].
+Qed.
+Theorem m_restore_repeated_key_refused (s : store) l1 k n x1 l2 v x l3 :
+  v < n \/ (v = n /\ x <> x1) ->
+  m_batch s (l1 ++ (k, (n, x1)) :: l2 ++ (k, (v, x)) :: l3) = (s, RErr).
+Proof. intros H. unfold m_batch. rewrite (batch_go_repeat_refused s l1 k n x1 l2 v x l3 H). reflexivity. Qed.
